@@ -76,7 +76,7 @@ def run(ctx):
     ov = ctx.make_overlay(["sqlrewrite"], extra=ctx.overlaygen(["-clock", "internal/pruning/partition_pruner.go"]))
     binp = ctx.go_build("sqlrewrite", overlay=ov)
     sp = ctx.path("c17_in.json")
-    json.dump({"time": gen.traces, "like": like, "url_budget": 200 if quick else 2000, "tps": 4}, open(sp, "w"))
+    json.dump({"time": gen.traces, "like": like, "url_budget": 320 if quick else 2000, "tps": 4}, open(sp, "w"))
     rp = ctx.path("c17_out.json")
     ctx.run([binp, "-mode", "c17", "-in", sp, "-out", rp, "-seed", str(ctx.seed), "-dir", ctx.path("c17_env")], timeout=3000)
     r = json.load(open(rp))
